@@ -189,6 +189,58 @@ func ReadSources() [][2]string {
 	return out
 }
 
+// FlagStore is one `readLoopExited.Store(v)` call site of package channel: the function, the stored
+// value and where the call sits: "deferred" (in a deferred closure: runs when the function returns),
+// and for Open: "before-transport-open" / "after-transport-open" / "after-loop-start" relative to
+// `c.t.Open()` and `go c.read(…)` among Open's top-level statements; "body" otherwise.
+type FlagStore struct{ Func, Value, Where string }
+
+func FindFlagStores() []FlagStore {
+	files := ParseDir(filepath.Join(Repo, "channel"))
+	var out []FlagStore
+	for _, fn := range SortedNames(files) {
+		for _, decl := range files[fn].Decls {
+			fd, ok := decl.(*ast.FuncDecl)
+			if !ok || fd.Body == nil {
+				continue
+			}
+			iOpen, iGo := -1, -1
+			for i, st := range fd.Body.List {
+				src := nodeSrc(st)
+				if iOpen < 0 && strings.Contains(src, "c.t.Open()") {
+					iOpen = i
+				}
+				if iGo < 0 && strings.Contains(src, "go c.read(") {
+					iGo = i
+				}
+			}
+			for i, st := range fd.Body.List {
+				_, isDefer := st.(*ast.DeferStmt)
+				ast.Inspect(st, func(n ast.Node) bool {
+					ce, ok := n.(*ast.CallExpr)
+					if !ok || !strings.HasSuffix(nodeSrc(ce.Fun), "readLoopExited.Store") || len(ce.Args) != 1 {
+						return true
+					}
+					where := "body"
+					switch {
+					case isDefer:
+						where = "deferred"
+					case fd.Name.Name == "Open" && iOpen >= 0 && i <= iOpen:
+						where = "before-transport-open"
+					case fd.Name.Name == "Open" && iGo >= 0 && i > iGo:
+						where = "after-loop-start"
+					case fd.Name.Name == "Open" && iOpen >= 0:
+						where = "after-transport-open"
+					}
+					out = append(out, FlagStore{fd.Name.Name, nodeSrc(ce.Args[0]), where})
+					return true
+				})
+			}
+		}
+	}
+	return out
+}
+
 func c06StrList(xs []string) string {
 	q := make([]string, len(xs))
 	for i, x := range xs {
@@ -220,6 +272,12 @@ func GenC06ReadLoop() string {
 	for _, p := range ReadSources() {
 		src = append(src, fmt.Sprintf("(%s, %s)", strconv.Quote(p[0]), strconv.Quote(p[1])))
 	}
-	b.WriteString("def readSources : List (String × String) := [" + strings.Join(src, ", ") + "]\n\nend Scrapli.Gen.C06ReadLoop\n")
+	b.WriteString("def readSources : List (String × String) := [" + strings.Join(src, ", ") + "]\n\n")
+	b.WriteString("/-- every `readLoopExited.Store(v)` site of package channel: (function, v, where) -/\n")
+	var fs []string
+	for _, f := range FindFlagStores() {
+		fs = append(fs, fmt.Sprintf("(%s, %s, %s)", strconv.Quote(f.Func), strconv.Quote(f.Value), strconv.Quote(f.Where)))
+	}
+	b.WriteString("def flagStores : List (String × String × String) := [" + strings.Join(fs, ", ") + "]\n\nend Scrapli.Gen.C06ReadLoop\n")
 	return b.String()
 }
